@@ -30,7 +30,8 @@ func c16(c *Ctx) {
 	for j := 0; j < n; j++ {
 		ctx := build.NewContext()
 		ctx.Function("f")
-		ctx.Attributes(Pick(rng, []attr.Attribute{0, attr.NOSPLIT}))
+		fattr := Pick(rng, []attr.Attribute{0, attr.NOSPLIT, attr.NOSPLIT | attr.NOFRAME, attr.NOFRAME})
+		ctx.Attributes(fattr)
 		ctx.SignatureExpr("func()")
 		k := rng.Intn(8)
 		if j == 0 {
@@ -47,7 +48,7 @@ func c16(c *Ctx) {
 			case 1:
 				ctx.Comment("x")
 			case 2:
-				if rng.Chance(30) {
+				if rng.Chance(30) && fattr&attr.NOFRAME == 0 { // a NOFRAME function may not write the base pointer (C15)
 					ctx.MOVQ(operand.U32(1), reg.RBP)
 					clob = true
 				}
